@@ -15,6 +15,8 @@ and of branch fix-c05b:
   * chrono::day / month accept 255 (`<=` instead of `<`),
   * array<T, 0>::front() / back() check `Size != 0`, array<T, 0>::operator[] checks `false` (both configurations),
   * basic_inplace_string::insert(index, ...) (7 overloads) and erase(index, count) check `index <= size()`.
+and of branch fix-c05c:
+  * the members of the specialisation inplace_vector<T, 0> that have a precondition check `false` before `unreachable()`.
 and of branch fix-c17x:
   * bitset::to_ulong / to_ullong exist for every width; `to_unsigned_type` checks `not test(i)` for every position at or
     beyond the digits of the result type (`BS.toUnsigned`).
@@ -333,33 +335,59 @@ def kPush (k : Nat) := K fIV "inplace_vector::unchecked_push_back" "size() != ma
 def kPop := K fIV "inplace_vector::pop_back" "not empty()"
 def kSet := K fIV "inplace_vector::unsafe_set_size" "newSize <= max_size()"
 
-def front (k : Nat) : M Out := do
-  guard (kFront k) (fun s => s.size != 0)
-  let x ← rdAt 0
-  pure [x]
-def back (k : Nat) : M Out := do
+/-- the keys of the specialisation `inplace_vector<T, 0>` (every member with a precondition checks `false`) -/
+def kFrontZ (k : Nat) := K fIV "inplace_vector::front" "false" k
+def kBackZ (k : Nat) := K fIV "inplace_vector::back" "false" k
+def kAtZ (k : Nat) := K fIV "inplace_vector::operator[]" "false" k
+def kEmplaceZ := K fIV "inplace_vector::unchecked_emplace_back" "false"
+def kPushZ (k : Nat) := K fIV "inplace_vector::unchecked_push_back" "false" k
+def kPopZ := K fIV "inplace_vector::pop_back" "false"
+
+/-- a member of `inplace_vector<T, 0>`: `TETL_PRECONDITION(false); etl::unreachable();` -/
+def zeroMember (key : Key) : M Out := do
+  guard key (fun _ => false)
+  fun _ s => .oob s
+
+/-- `back()` of the primary template -/
+def backP (k : Nat) : M Out := do
   guard (kBack k) (fun s => s.size != 0)
   let n ← getSize
   let x ← rdAt (n - 1)
   pure [x]
+
+def front (k : Nat) : M Out := do
+  let c ← getCap
+  if c == 0 then zeroMember (kFrontZ k) else do
+    guard (kFront k) (fun s => s.size != 0)
+    let x ← rdAt 0
+    pure [x]
+def back (k : Nat) : M Out := do
+  let c ← getCap
+  if c == 0 then zeroMember (kBackZ k) else backP k
 def at_ (k : Nat) (i : Nat) : M Out := do
-  guard (kAt k) (fun s => i < s.size)
-  let x ← rdAt i
-  pure [x]
-/-- `unchecked_emplace_back` (key `kEmplace`) / `unchecked_push_back` (keys `kPush 0/1`) -/
-def append (key : Key) (v : Int) : M Out := do
-  guard key (fun s => s.size != s.cap)
-  let n ← getSize
-  constructEnd v
-  guard kSet (fun s => n + 1 ≤ s.cap)
-  back 0
+  let c ← getCap
+  if c == 0 then zeroMember (kAtZ k) else do
+    guard (kAt k) (fun s => i < s.size)
+    let x ← rdAt i
+    pure [x]
+/-- `unchecked_emplace_back` (keys `kEmplace` / `kEmplaceZ`) / `unchecked_push_back` (keys `kPush 0/1` / `kPushZ 0/1`) -/
+def append (key keyZ : Key) (v : Int) : M Out := do
+  let c ← getCap
+  if c == 0 then zeroMember keyZ else do
+    guard key (fun s => s.size != s.cap)
+    let n ← getSize
+    constructEnd v
+    guard kSet (fun s => n + 1 ≤ s.cap)
+    backP 0
 def popBack : M Out := do
-  guard kPop (fun s => s.size != 0)
-  let _ ← back 0
-  let n ← getSize
-  guard kSet (fun s => n - 1 ≤ s.cap)
-  shrinkTo (n - 1)
-  pure []
+  let c ← getCap
+  if c == 0 then zeroMember kPopZ else do
+    guard kPop (fun s => s.size != 0)
+    let _ ← backP 0
+    let n ← getSize
+    guard kSet (fun s => n - 1 ≤ s.cap)
+    shrinkTo (n - 1)
+    pure []
 /-- the private member `unsafe_set_size(newSize)` called directly -/
 def unsafeSetSize (n : Nat) : M Out := do
   guard kSet (fun s => n ≤ s.cap)
@@ -851,7 +879,7 @@ def run : Op → M Out
   | .svCtorN st n => SV.ctorN st n | .svCtorNV st n v => SV.ctorNV st n v | .svCtorRng st xs o => SV.ctorRng st xs o
   | .svClear st => do SV.clear st; pure []
   | .ivFront k => IV.front k | .ivBack k => IV.back k | .ivAt k i => IV.at_ k i
-  | .ivEmplaceBack v => IV.append IV.kEmplace v | .ivPush k v => IV.append (IV.kPush k) v | .ivPop => IV.popBack
+  | .ivEmplaceBack v => IV.append IV.kEmplace IV.kEmplaceZ v | .ivPush k v => IV.append (IV.kPush k) (IV.kPushZ k) v | .ivPop => IV.popBack
   | .vwAt i => VW.at_ i | .vwFront => VW.front | .vwBack => VW.back
   | .vwRemovePrefix n => VW.removePrefix n | .vwRemoveSuffix n => VW.removeSuffix n
   | .vwCopy c p => VW.copy c p | .vwSubstr p c => VW.substr p c
